@@ -63,6 +63,10 @@ def job(args):
 def main():
   mode = sys.argv[1]
   verbose = '-v' in sys.argv
+  only = None
+  for a in sys.argv[2:]:
+    if a.startswith('--checks='):
+      only = a.split('=', 1)[1].split(',')
   prefixes = [a for a in sys.argv[2:] if not a.startswith('-')]
   jobs = []
   for d in sorted(glob.glob(os.path.join(VERIF, mode, '*'))):
@@ -71,7 +75,7 @@ def main():
     if not os.path.isfile(patch) or (prefixes and not any(name.startswith(p) for p in prefixes)):
       continue
     if mode == 'benign':
-      pids = PROPS
+      pids = only or PROPS
     else:
       meta = json.load(open(os.path.join(d, 'meta.json')))
       pids = sorted(meta.get('expected', {})) or [meta['property']]
